@@ -963,6 +963,174 @@ class Ref:
             self.domain.append(z3.Or(*[r.present for r in ds.rows]))
         return RDS(comps, rows)
 
+    # ------------------------------------------------------------------ analytic (window) functions
+    def n_Analytic(self, node):
+        if self.row is not None:
+            ds, cur = self.row
+            vals = self.analytic_over(node, ds, lambda r: self.in_row(ds, r, lambda: self.ev(node.operand)) if node.operand is not None else None)
+            idx = [i for i, r in enumerate(ds.rows) if r is cur][0]
+            return vals[idx]
+        ds = self.ev(node.operand)
+        if not isinstance(ds, RDS):
+            raise Unsupported("oracle: analytic on a scalar")
+        meas = ds.measures()
+        comps = [c for c in ds.comps if c[2] == "Identifier"]
+        rows = [Row(r.present, {i: r.cols[i] for i in ds.ids()}, r.ord) for r in ds.rows]
+        types = {}
+        for m in meas:
+            vals = self.analytic_over(node, ds, lambda r, m=m: (r.cols[m], ds.comp(m)[1]))
+            for row, (v, ty) in zip(rows, vals):
+                row.cols[m] = v
+                types[m] = ty
+        for m in meas:
+            name = m
+            if node.op == "count" and len(meas) == 1:
+                name = "int_var"
+            elif len(meas) == 1:
+                name = self.result_type_name(ds.comp(m)[1], types[m], True, m)
+            if name != m:
+                for row in rows:
+                    row.cols[name] = row.cols.pop(m)
+            comps.append((name, types[m], "Measure"))
+        if self.virals(ds):
+            raise Unsupported("oracle: analytic with viral attributes")
+        return RDS(comps, rows)
+
+    def analytic_over(self, node, ds, value_of):
+        """-> list of (SV, type), one per row of ds: the analytic function over the row's partition and frame"""
+        op = node.op
+        n = len(ds.rows)
+        ids = ds.ids()
+        if node.partition_op in (None, "by"):
+            pcols = list(node.partition_by or [])
+        elif node.partition_op == "except":
+            pcols = [i for i in ids if i not in set(node.partition_by or [])]
+        elif node.partition_op == "except all":
+            pcols = []
+        else:
+            raise Unsupported("oracle: partition %s" % node.partition_op)
+        okeys = [(o.component, o.order) for o in (node.order_by or [])]
+        rows = ds.rows
+        part = [[z3.And(rows[j].present, *[same(rows[i].cols[c], rows[j].cols[c]) for c in pcols]) for j in range(n)] for i in range(n)]
+
+        def before(a, b):
+            res = FALSE
+            for c, o in reversed(okeys):
+                x, y = rows[a].cols[c], rows[b].cols[c]
+                lt = (x.val < y.val) if o != "desc" else (y.val < x.val)
+                if x.kind == "str":
+                    lt = (x.val < y.val) if o != "desc" else (y.val < x.val)
+                res = z3.Or(lt, z3.And(x.val == y.val, res))
+            return res
+        # precondition of the statement: the ordering is total (no ties, no null order keys) inside a partition
+        for i in range(n):
+            for c, o in okeys:
+                self.domain.append(z3.Implies(rows[i].present, z3.Not(rows[i].cols[c].null)))
+            for j in range(i + 1, n):
+                if okeys:
+                    self.domain.append(z3.Implies(part[i][j], z3.Or(*[rows[i].cols[c].val != rows[j].cols[c].val for c, o in okeys])))
+        vals = [value_of(r) for r in rows]
+        out = []
+        w = node.window
+        for i in range(n):
+            pos = [z3.Sum([z3.If(z3.And(part[i][a], before(a, j)), 1, 0) for a in range(n) if a != j] or [z3.IntVal(0)]) for j in range(n)] if okeys else None
+            if op in ("lag", "lead"):
+                if not okeys:
+                    raise Unsupported("oracle: lag/lead without order")
+                k = node.params[0] if node.params else 1
+                k = k.value if hasattr(k, "value") else k
+                target = pos[i] - k if op == "lag" else pos[i] + k
+                res = None
+                for j in range(n):
+                    v, ty = vals[j]
+                    hit = z3.And(part[i][j], pos[j] == target)
+                    res = (SV(v.kind, z3.Or(z3.Not(hit), v.null), v.val) if res is None else ite(hit, v, res))
+                out.append((res, vals[i][1]))
+                continue
+            if op == "rank":
+                if not okeys:
+                    raise Unsupported("oracle: rank without order")
+                out.append((SV("int", FALSE, pos[i] + 1), "Integer"))
+                continue
+            # frame membership
+            if w is None or not okeys:
+                frame = [TRUE] * n
+                if w is not None and not okeys:
+                    st, sp = self._bound(w.start, w.start_mode), self._bound(w.stop, w.stop_mode)
+                    if (st, sp) not in ((("-inf",), ("cur",)), (("-inf",), ("+inf",))):
+                        raise Unsupported("oracle: window without order by")
+                    if (st, sp) == (("-inf",), ("cur",)):
+                        # the parser's default window without any ordering: the frame depends on physical order
+                        raise Unsupported("oracle: running window without order by is order dependent")
+            else:
+                st, sp = self._bound(w.start, w.start_mode), self._bound(w.stop, w.stop_mode)
+                if str(w.type_).lower().startswith("data"):
+                    def lo(j):
+                        return TRUE if st == ("-inf",) else FALSE if st == ("+inf",) else pos[j] >= pos[i] + st[1]
+
+                    def hi(j):
+                        return TRUE if sp == ("+inf",) else FALSE if sp == ("-inf",) else pos[j] <= pos[i] + sp[1]
+                    frame = [z3.And(lo(j), hi(j)) for j in range(n)]
+                else:
+                    if len(okeys) != 1:
+                        raise Unsupported("oracle: range window with several order keys")
+                    c, o = okeys[0]
+                    sgn = -1 if o == "desc" else 1
+
+                    def keyv(j):
+                        v = rows[j].cols[c]
+                        if v.kind not in ("int", "real"):
+                            raise Unsupported("oracle: range window on %s" % v.kind)
+                        return v.val * sgn
+
+                    def lo(j):
+                        return TRUE if st == ("-inf",) else FALSE if st == ("+inf",) else keyv(j) >= keyv(i) + st[1]
+
+                    def hi(j):
+                        return TRUE if sp == ("+inf",) else FALSE if sp == ("-inf",) else keyv(j) <= keyv(i) + sp[1]
+                    frame = [z3.And(lo(j), hi(j)) for j in range(n)]
+            members = [z3.And(part[i][j], frame[j]) for j in range(n)]
+            if op in ("first_value", "last_value"):
+                if not okeys:
+                    raise Unsupported("oracle: first/last without order")
+                res = None
+                for j in range(n):
+                    v, ty = vals[j]
+                    if op == "first_value":
+                        edge = z3.And(members[j], *[z3.Not(z3.And(members[a], pos[a] < pos[j])) for a in range(n) if a != j])
+                    else:
+                        edge = z3.And(members[j], *[z3.Not(z3.And(members[a], pos[a] > pos[j])) for a in range(n) if a != j])
+                    res = (SV(v.kind, z3.Or(z3.Not(edge), v.null), v.val) if res is None else ite(edge, v, res))
+                out.append((res, vals[i][1]))
+                continue
+            if op == "ratio_to_report":
+                tot, _ = self.agg_value("sum", [(part[i][j], vals[j][0]) for j in range(n)], vals[i][1])
+                x = as_kind(vals[i][0], "real")
+                t = as_kind(tot, "real")
+                self.may_err.append(z3.And(rows[i].present, z3.Not(t.null), t.val == 0))
+                out.append((SV("real", z3.Or(x.null, t.null), x.val / t.val), "Number"))
+                continue
+            ty = vals[i][1] if vals[i] is not None else "Integer"
+            if op == "count" and vals[i] is None:
+                c_ = z3.Sum([z3.If(m, 1, 0) for m in members])
+                out.append((SV("int", FALSE, c_), "Integer"))
+                continue
+            v, rt = self.agg_value(op, [(members[j], vals[j][0]) for j in range(n)], ty)
+            if op == "count":
+                v = SV("int", FALSE, v.val)      # analytic count of an empty frame is 0 (no NULLIF here)
+            out.append((v, rt))
+        return out
+
+    @staticmethod
+    def _bound(value, mode):
+        mode = str(mode).lower()
+        if "current" in mode or str(value).lower().startswith("current"):
+            return ("cur", 0)
+        unb = str(value).lower() == "unbounded" or (isinstance(value, int) and value < 0)
+        if unb:
+            return ("-inf",) if mode.startswith("preceding") else ("+inf",)
+        return ("off", -int(value)) if mode.startswith("preceding") else ("off", int(value))
+
     # ------------------------------------------------------------------ joins
     def n_JoinOp(self, node):
         op = node.op
